@@ -6,6 +6,8 @@ pub mod c05;
 pub mod c09;
 pub mod c10;
 pub mod c11;
+pub mod c12;
+pub mod c13;
 pub mod c14;
 
 use std::time::Instant;
@@ -24,6 +26,10 @@ pub fn run(id: &str, replay: Option<&str>) -> i32 {
         ("C10", Some(p)) => c10::replay(p),
         ("C11", None) => c11::run(started),
         ("C11", Some(p)) => c11::replay(p),
+        ("C12", None) => c12::run(started),
+        ("C12", Some(p)) => c12::replay(p),
+        ("C13", None) => c13::run(started),
+        ("C13", Some(p)) => c13::replay(p),
         ("C14", None) => c14::run(started),
         ("C14", Some(p)) => c14::replay(p),
         ("C03", None) => c03::run(started),
